@@ -5,7 +5,7 @@
   is requested), advances its time to that announced time, and pushes its outputs for it.
 
 Each component is driven inside a real Composition by a daily generator for several steps (1, 2, 3, 5 days); all requests that reach
-the generator's output are recorded.  Bound: 4 component classes x 4 steps x 12 days.
+the generator's output are recorded.  Bound: 4 component classes x 6 steps (1, 2, 3, 5 days, one calendar month from the 1st and from the 31st) x 12 / 100 days.
 """
 import json
 import logging
@@ -23,29 +23,33 @@ T0 = datetime(2000, 1, 1)
 DAY = timedelta(days=1)
 
 
-def make_consumer(kind, step):
+def make_consumer(kind, step, start=T0):
     info = fm.Info(time=None, grid=fm.NoGrid(), units="")
     if kind == "CallbackComponent":
         return fm.components.CallbackComponent(inputs={"In": info}, outputs={"Out": fm.Info(time=None, grid=fm.NoGrid(), units="")},
-                                               callback=lambda inp, t: {"Out": inp["In"]}, start=T0, step=step), "In"
+                                               callback=lambda inp, t: {"Out": inp["In"]}, start=start, step=step), "In"
     if kind == "DebugConsumer":
-        return fm.components.DebugConsumer({"In": info}, start=T0, step=step), "In"
+        return fm.components.DebugConsumer({"In": info}, start=start, step=step), "In"
     if kind == "TimeTrigger":
-        return fm.components.TimeTrigger(in_info=info, out_info=fm.Info(time=None, grid=fm.NoGrid(), units=""), start=T0, step=step), "In"
+        return fm.components.TimeTrigger(in_info=info, out_info=fm.Info(time=None, grid=fm.NoGrid(), units=""), start=start, step=step), "In"
     if kind == "CsvWriter":
         d = tempfile.mkdtemp(prefix="verif_csv_")
-        return fm.components.CsvWriter(path=os.path.join(d, "out.csv"), inputs=["In"], time_column="t", separator=";", start=T0, step=step), "In"
+        return fm.components.CsvWriter(path=os.path.join(d, "out.csv"), inputs=["In"], time_column="t", separator=";", start=start, step=step), "In"
     raise KeyError(kind)
 
 
 def main():
     viol, n = [], 0
     for kind in ("CallbackComponent", "DebugConsumer", "TimeTrigger", "CsvWriter"):
-        for days in (1, 2, 3, 5):
+        for days in (1, 2, 3, 5, "month", "month-end"):
             n += 1
-            step = days * DAY
+            if isinstance(days, str):
+                from dateutil.relativedelta import relativedelta
+                step = relativedelta(months=1)     # calendar steps: the announced time must still be the one that is pulled
+            else:
+                step = days * DAY
             try:
-                cons, iname = make_consumer(kind, step)
+                cons, iname = make_consumer(kind, step, start=datetime(2000, 1, 31) if days == "month-end" else T0)
             except Exception as e:  # class not constructible in this environment (e.g. missing optional dependency)
                 continue
             gen = fm.components.CallbackGenerator({"Out": (lambda t: float((t - T0).days), fm.Info(time=None, grid=fm.NoGrid(), units=""))}, start=T0, step=DAY)
@@ -66,9 +70,9 @@ def main():
 
             cons.update = upd
             try:
-                comp.run(start_time=T0, end_time=T0 + 12 * DAY)
+                comp.run(start_time=T0, end_time=T0 + (12 if not isinstance(days, str) else 100) * DAY)
             except Exception as e:  # noqa
-                viol.append(f"{kind}(step={days}d): run failed: {type(e).__name__}: {str(e)[:100]}")
+                viol.append(f"{kind}(step={days}{'d' if not isinstance(days, str) else ''}): run failed: {type(e).__name__}: {str(e)[:100]}")
                 continue
             finally:
                 p = getattr(cons, "_path", None)
@@ -97,6 +101,6 @@ if __name__ == "__main__":
     if "--json" in sys.argv:
         print(json.dumps({"evaluations": n, "distinct_nontrivial": n, "violations": [{"case": x} for x in v[:3]],
                           "rule": "time-stepped finam components with inputs, driven in a real Composition: every request during update() is for the announced next_time",
-                          "bound": "4 component classes x steps {1,2,3,5} d x 12 days"}))
+                          "bound": "4 component classes x steps {1,2,3,5} d x 12 days, {1 month from Jan 1, from Jan 31} x 100 days"}))
     else:
         print(("CONFIRMED " + v[0]) if v else f"NOT-CONFIRMED {n} component runs: all requests at the announced time")
